@@ -26,6 +26,10 @@ CLAIMED["C04"] = ("The safety core of the liveness claim is a monitor invariant 
   "Not decided: 'eventually' itself - that the kernel reports EPOLLOUT for an armed writable descriptor and that the poller loop then calls flush (fairness of epoll and of the loop) is assumed; the poller loop readWriteLoop and AsyncRead are not under contract. Assumed: epoll_ctl contract (ADD of an unregistered / MOD of a registered descriptor succeeds, no ENOMEM), open callbacks reach the connection only through its public methods, addDialer (dial path) not verified.",
   "DESIGN.md 4 C04")
 
+CLAIMED["C03"] = ("Close teardown is tied to a permission (ghost token) that only the critical section flipping the closed flag from false to true produces; every one of the call sites of closeWithErrorWithoutLock (closeWithError, Write, Writev, flush, Sendfile) is proved to hold it, and the teardown consumes it: teardown runs exactly once per connection. deleteConn delivers exactly one close notification per teardown (none for a UDP listener) carrying the connection's first close error; closeWithError is idempotent (an already closed connection: nil, no notification, error unchanged), the first caller's error is the one recorded; closed is monotone (monitor invariant); Write/Writev/Sendfile on a closed connection return net.ErrClosed with the kernel byte counter untouched; all queued buffers are released and the queue dropped by teardown.",
+  "Not decided: the asynchronous-dial clause (readWriteLoop, the poller event loop that invokes the dial callback, and DialAsyncTimeout are not under contract; on this tree a refused non-blocking connect reports success first and a timed-out dial never calls back - observed by execution in round 0, described in DESIGN.md as F4, outside the obligations claimed here); open-before-close ordering relies on addConn's program order (onOpen before registration) plus the engine's Async queue (C19); Execute-after-close is C05. Assumed: close/open callbacks reach the connection only through public methods; udpConn.Close (UDP session teardown) trusted; mutual exclusion of sync.Mutex.",
+  "DESIGN.md 4 C03")
+
 NA = {
  "C18": "termination of Stop/Shutdown and release of goroutines/descriptors for all histories is liveness + whole-process resource state; no contract within reach of a per-function deductive verifier decides it (DESIGN.md 4 C18)",
 }
